@@ -54,16 +54,16 @@ def run(chk):
     chk.prove()
     rng = chk.rng
     progs = []
-    for _ in range(120 if chk.thorough else 25):
+    for _ in range(1500 if chk.thorough else 25):
         progs.append((stateful_program(rng), "stateful"))
-    for _ in range(400 if chk.thorough else 80):
+    for _ in range(4000 if chk.thorough else 80):
         g = proggen.Gen(rng, quantum=rng.random() < 0.6, tracked=rng.random() < 0.5)
         progs.append((g.program(), "typed"))
-    for _ in range(200 if chk.thorough else 40):
+    for _ in range(2000 if chk.thorough else 40):
         progs.append((classgen.ClassProgram(rng, depth=rng.choice([1, 2, 3, 4]), churn=rng.random() < 0.2).source(), "class"))
-    for _ in range(80 if chk.thorough else 15):
+    for _ in range(600 if chk.thorough else 15):
         progs.append((heapgen.HeapProgram(rng, dtor=True).source(), "heap"))
-    for _ in range(40 if chk.thorough else 8):
+    for _ in range(300 if chk.thorough else 8):
         progs.append((scopegen.ScopeProgram(rng).reference(), "scope"))
     for _fn, o in load_corpus("C18"):
         progs.append((o["source"], "corpus"))
